@@ -31,6 +31,9 @@ type Series struct {
 // ErrInjected is the error every "error" fault returns (wrapped with its address).
 var ErrInjected = errors.New("mstore: injected storage failure")
 
+// ErrAborted is what a context-honouring storage returns with OwnAbortErr.
+var ErrAborted = errors.New("mstore: call aborted")
+
 // Fault addresses one storage callback and says what happens there.
 type Fault struct {
 	Kind   string `json:"kind"`   // querier | select | set-next | set-err | labels | iterator | seek | next | at | iter-err | close
@@ -69,6 +72,8 @@ type Store struct {
 	// HonorCtx makes every error-capable callback fail with the context's error once
 	// the context is cancelled (remote-read style storages do; a TSDB mostly does not).
 	HonorCtx bool
+	// OwnAbortErr: with HonorCtx, the error is ErrAborted instead of the context's.
+	OwnAbortErr bool
 
 	Faults []Fault
 	// Cancel is invoked by a "cancel" fault.
@@ -124,6 +129,10 @@ func (s *Store) tick(ctx context.Context, kind, sel string, series int) error {
 	if s.HonorCtx && ctx != nil && ctx.Err() != nil {
 		switch kind {
 		case "querier", "select", "set-next", "set-err", "iterator", "seek", "next":
+			if s.OwnAbortErr {
+				// a storage that reports an aborted call with an error of its own
+				return ErrAborted
+			}
 			return ctx.Err()
 		}
 	}
@@ -181,6 +190,9 @@ func (s *Store) tick(ctx context.Context, kind, sel string, series int) error {
 				go s.Cancel()
 			}
 			<-ctx.Done()
+			if s.OwnAbortErr {
+				return ErrAborted
+			}
 			return ctx.Err()
 		}
 	}
